@@ -3,8 +3,9 @@
 A handshaken of_01.Connection on a fake socket is fed bytes built by pvf.ref.swbytes (struct only).
 Ports: a features reply, then port-status notifications (and possibly another features reply); after
 every message the whole mapping API of con.ports and con.original_ports is compared with
-pvf.ref.portview.  Statistics: replies split into parts with the MORE flag, interleaved with other
-messages and other requests' replies; the aggregated events and RawStatsReply raised on the nexus and
+pvf.ref.portview, and so it is from inside the PortStatus listeners (nexus and connection) while each notification
+is announced.  Statistics: replies split into parts with the MORE flag, interleaved with other
+messages (among them errors that turn down other requests, quoting them) and other requests' replies; the aggregated events and RawStatsReply raised on the nexus and
 on the connection are compared with what the property statement prescribes.
 Several connections: 2..3 switches that use the same port numbers are connected at the same time in one
 world; the script interleaves their handshakes, notifications, features replies, statistics parts and
@@ -30,7 +31,8 @@ LEVEL_TEXT = ("Exploration: all port-status sequences up to length 3 (thorough: 
               "each multipart-capable type, every placement of a second request's reply around/between the parts, and "
               "Hypothesis histories (<= 12 notifications over 5 port numbers, <= 3 requests of <= 6 parts) are fed as bytes into "
               "a handshaken Connection; after every message the complete mapping API of con.ports / con.original_ports is "
-              "compared with an independent reference view and every statistics event with an independent reassembly rule. "
+              "compared with an independent reference view (also from inside the PortStatus listeners while each notification is announced) and every statistics event with an independent reassembly rule; "
+              "error messages that turn down another request (8 kinds of quoted request, 3 quotation lengths) at every position of every strict composition of 4 entries. "
               "The same with two or three connections alive at once (exhaustive <= 2 notifications for either of two switches "
               "with the same port numbers x every placement of the second switch's handshake; every merge of a 3-part and a "
               "2-part reply of two switches; Hypothesis scripts of <= 16 items over 2..3 switches): every connection's view "
@@ -41,7 +43,7 @@ LEVEL_NOTE = ("trusts the independent encoder pvf.ref.swbytes; field-level decod
               "identify an entry are compared; TCP segmentation is C02's subject, each message is delivered by one read()")
 RULE = ("a case is either (features reply with 0..4 ports, k notifications delivered before the handshake is finished by the barrier reply or by the barrier-unsupported error, then "
         "<= 12 port-status / features messages) or (<= 3 statistics requests, each a list of parts, and a stream that merges "
-        "the parts with other messages), each optionally with listeners that halt events on the nexus / the connection; non-trivial when a deleted port is re-added, a port is renamed or changes hardware "
+        "the parts with other messages, among them error messages quoting another request of the controller), each optionally with listeners that halt events on the nexus / the connection; non-trivial when a deleted port is re-added, a port is renamed or changes hardware "
         "address, or a reply has >= 3 parts; or (kind 'multi') 2..3 connection descriptions (dpid, features reply, how the handshake ends, optional "
         "statistics reply as a list of parts) and a script of items [hs1 | hs2 | ps | feat | sp | close, connection index, ...] "
         "(an item for a connection that is not up yet brings it up first; items for a closed connection are skipped), non-trivial when a message "
@@ -61,7 +63,8 @@ ASSUMPTIONS = [
   "connections are independent: what arrives on one connection (handshake, features reply, notification, statistics part, end of stream) changes nothing in any other connection's port views or statistics assembly, also when two live connections report the same datapath id",
   "a connection's views are judged only while it is up (after its handshake, before its stream ends); notifications buffered during its handshake count once it is up",
   "a statistics reply whose type has no aggregated event (OFPST_VENDOR, types OpenFlow 1.0 does not define) raises RawStatsReply per part and nothing else; it counts as 'another statistics reply' for the contiguity of the judged ones; handling any well-formed statistics reply must not make the message handler raise (Connection.read() would swallow it; the harness wraps the handlers to see it)",
-  "error messages used as interleaved traffic carry no data (an error with data hit the separate, now fixed, hexdump defect recorded under C09)",
+  "error messages are 'other message types' for the statistics clause: an OFPT_ERROR that turns down ANOTHER request of the controller (its data quotes up to 64 bytes of that request - a statistics request of any type, flow-mod, barrier request, packet-out, port-mod; its xid is never that of a request whose reply is in the stream) changes nothing in the assembly of the replies in progress, wherever it arrives",
+  "the PortStatus event is the announcement of a notification and its listeners are where applications consult connection.ports: while the event for notification k is delivered (on the nexus and on the connection, also for the notifications buffered during the handshake and announced when it finishes) both views already equal 'reported ports with notifications 1..k applied in order'",
 ]
 EXHAUSTIVE_SCOPE = {
   "quick": ("ports: every sequence of <= 3 notifications from a 12-letter alphabet (2 ports x {add, add renamed, modify, "
@@ -72,6 +75,9 @@ EXHAUSTIVE_SCOPE = {
             "0..3 notifications buffered during the handshake (all sequences of <= 2, all of 3 on one port) x 4 initial sets x "
             "handshake finished by barrier reply / by the barrier-unsupported error; "
             "all 2-notification sequences with PortStatus/FeaturesReceived listeners halting on nexus or connection; "
+            "every strict composition of 4 entries x 4 types x every position of an error message that turns down another request x 8 kinds of quoted request "
+            "(4 statistics requests, flow-mod, barrier, packet-out, port-mod) x {fresh xid, xid next to the reply's} and header-only / 12-byte quotations; "
+            "every port-status case also judges both views from inside the PortStatus listeners on the nexus and on the connection; "
             "vendor / undefined statistics types in 1..3 parts alone, unfinished, and before / between / after the two parts of a judged reply x 4 types; "
             "two connections whose switches both number their ports 1, 2 (other names and addresses): every sequence of <= 2 notifications from a 24-letter "
             "alphabet (2 connections x 2 ports x 6 shapes) x every placement (start, finish) of the second connection's handshake from the full initial sets, "
